@@ -33,6 +33,85 @@ pub fn load_event(grid: &Grid) -> J {
     json!({"op":"defs.load","rows":rows})
 }
 
+/// the load event of Trace_Defs: the `is` graph plus, per def, the other tags the namespace reads (associations,
+/// mandatory, reciprocalOf, children, childrenFlatten ...) projected to what Defs.tla's `at` holds
+pub fn load_event_rich(grid: &Grid) -> J {
+    let mut ev = load_event(grid);
+    let mut attrs: Vec<J> = Vec::new();
+    for r in grid.rows.iter() {
+        let Some(d) = r.get_symbol("def") else { continue };
+        let (mut lists, mut listtags, mut markers, mut syms, mut others) = (Vec::new(), Vec::new(), Vec::new(), Vec::new(), Vec::new());
+        for (k, v) in r.iter() {
+            match v {
+                Value::Marker => markers.push(cps(k)),
+                Value::List(l) => {
+                    listtags.push(cps(k));
+                    for x in l {
+                        if let Value::Symbol(s) = x {
+                            lists.push(json!([cps(k), cps(&s.value)]));
+                        }
+                    }
+                }
+                Value::Symbol(s) => syms.push(json!([cps(k), cps(&s.value)])),
+                _ => others.push(cps(k)),
+            }
+        }
+        let (kids, children) = match r.get("children") {
+            None => ("none", json!([])),
+            Some(Value::Str(s)) => ("str", cps(&s.value)),
+            Some(Value::List(l)) => ("list", J::Array(l.iter().filter_map(|x| if let Value::Dict(d) = x { Some(tags(d)) } else { None }).collect())),
+            Some(_) => ("other", json!([])),
+        };
+        attrs.push(json!([cps(&d.value), lists, listtags, markers, syms, others, kids, children]));
+    }
+    ev["attrs"] = J::Array(attrs);
+    ev
+}
+
+fn named(m: &std::collections::BTreeMap<Symbol, Vec<Dict>>) -> J {
+    J::Array(m.iter().map(|(k, v)| json!([cps(&k.value), names_owned(v)])).collect())
+}
+
+/// the indexes `Namespace::make` builds once
+pub fn index_event(ns: &'static Namespace<'static>) -> J {
+    match crate::util::guarded(|| {
+        json!({"op":"defs.index",
+            "features":names_owned(&ns.features),"conjuncts":names_owned(&ns.conjuncts),"libs":names_owned(&ns.libs),
+            "feature_names":ns.feature_names.iter().map(|s| cps(s)).collect::<Vec<J>>(),
+            "tag_on_names":ns.tag_on_names.iter().map(|s| cps(s)).collect::<Vec<J>>(),
+            "tag_on_defs":named(&ns.tag_on_defs),"choices":named(&ns.choices),"subtypes":named(&ns.subtypes)})
+    }) {
+        Ok(j) => j,
+        Err(p) => json!({"op":"defs.panic","what":"index","sym":cps(""),"msg":cps(&crate::util::short(&p))}),
+    }
+}
+
+/// associations, implementation and the fits_* shorthands of one symbol
+pub fn assoc_event(ns: &'static Namespace<'static>, sym: &str, assocs: &[String]) -> J {
+    match crate::util::guarded(|| {
+        let s = Symbol::from(sym);
+        let by: Vec<J> = assocs.iter().map(|a| json!([cps(a), names(&ns.associations(&s, &Symbol::from(a.as_str())))])).collect();
+        json!({"op":"defs.assoc","sym":cps(sym),"is":names(&ns.is(&s)),"tag_on":names(&ns.tag_on(&s)),"tags":names(&ns.tags(&s)),
+            "by":by,"impl":names(&ns.implementation(&s)),
+            "fits_marker":ns.fits_marker(&s),"fits_val":ns.fits_val(&s),"fits_choice":ns.fits_choice(&s),"fits_entity":ns.fits_entity(&s)})
+    }) {
+        Ok(j) => j,
+        Err(p) => json!({"op":"defs.panic","what":"assoc","sym":cps(sym),"msg":cps(&crate::util::short(&p))}),
+    }
+}
+
+/// children prototypes of a record
+pub fn protos_event(ns: &'static Namespace<'static>, rec: &Dict) -> J {
+    match crate::util::guarded(|| {
+        let ps = ns.protos(rec);
+        json!({"op":"defs.protos","rec":tags(rec),"protos":ps.iter().map(tags).collect::<Vec<J>>(),
+               "entity":cps(ns.reflect(rec).entity_type.get_symbol("def").map_or("", |s| s.value.as_str()))})
+    }) {
+        Ok(j) => j,
+        Err(p) => json!({"op":"defs.panic","what":"protos","sym":tags(rec),"msg":cps(&crate::util::short(&p))}),
+    }
+}
+
 /// a panic inside a namespace query is an answer like any other: logged, judged by Trace_Defs
 pub fn query_event(ns: &'static Namespace<'static>, sym: &str, all: &[String]) -> J {
     match crate::util::guarded(|| query_event_inner(ns, sym, all)) {
@@ -77,7 +156,7 @@ fn reflect_event_inner(ns: &'static Namespace<'static>, rec: &Dict, asked: &[Str
         .map(|b| cps(b))
         .collect();
     json!({"op":"defs.reflect","rec":tags(rec),"defs":names(&refl.defs),"asked":asked.iter().map(|a| cps(a)).collect::<Vec<J>>(),
-           "fits":fits,"isa":isa,"entity":cps(refl.entity_type.def_name())})
+           "fits":fits,"isa":isa,"entity":cps(refl.entity_type.get_symbol("def").map_or("", |s| s.value.as_str()))})
 }
 
 pub fn grid_of(rows: &[(String, Vec<String>)], noise: bool) -> Grid {
@@ -100,6 +179,120 @@ pub fn grid_of(rows: &[(String, Vec<String>)], noise: bool) -> Grid {
         .collect();
     Grid::make_from_dicts(dicts)
 }
+
+fn sym_list(names: &[String]) -> Value {
+    Value::make_list(names.iter().map(|n| Value::make_symbol(n)).collect())
+}
+
+/// defs that carry more than `is`: the association defs themselves (plain, computed, computed with an undefined or
+/// missing reciprocal, a subtype of an association), tagOn / rel1 lists with undefined and non-symbol entries,
+/// mandatory markers, entity / marker / val roots, children prototypes (list and multi-line text) and childrenFlatten
+pub fn grid_rich(rows: &[(String, Vec<String>)], rng: &mut Rng) -> Grid {
+    let mut rows: Vec<(String, Vec<String>)> = rows.to_vec();
+    for r in rows.iter_mut() {
+        if r.0.contains('-') || r.0.contains(':') || r.0 == "choice" {
+            continue;
+        }
+        match rng.below(10) {
+            0 => r.1.push("entity".into()),
+            1 => r.1.push("marker".into()),
+            2 => r.1.push("val".into()),
+            _ => {}
+        }
+    }
+    let names: Vec<String> = rows.iter().map(|r| r.0.clone()).collect();
+    let pick = |rng: &mut Rng| -> String {
+        if rng.chance(1, 7) { format!("undef{}", rng.below(4)) } else { names[rng.below(names.len())].clone() }
+    };
+    let base = grid_of(&rows, true);
+    let mut dicts: Vec<Dict> = base.rows.clone();
+    for d in dicts.iter_mut() {
+        if rng.chance(1, 3) {
+            let mut l: Vec<Value> = (0..1 + rng.below(3)).map(|_| Value::make_symbol(&pick(rng))).collect();
+            if rng.chance(1, 4) {
+                l.push(Value::make_str("tagOnNoise"));
+            }
+            d.insert("tagOn".into(), Value::make_list(l));
+        }
+        if rng.chance(1, 5) {
+            d.insert("rel1".into(), sym_list(&[pick(rng), pick(rng)]));
+        }
+        if rng.chance(1, 12) {
+            d.insert("rel1".into(), Value::make_symbol(&pick(rng))); // not a list: ignored by the reciprocal search
+        }
+        if rng.chance(1, 5) {
+            d.insert("mandatory".into(), Value::Marker);
+        }
+        if rng.chance(1, 15) {
+            d.insert("mandatory".into(), Value::make_str("no")); // not a marker
+        }
+        if rng.chance(1, 5) {
+            let kid = |rng: &mut Rng| -> Dict {
+                let mut k = Dict::new();
+                for _ in 0..rng.below(4) {
+                    let n = pick(rng);
+                    if !n.contains('-') && !n.contains(':') {
+                        k.insert(n, if rng.chance(2, 3) { Value::Marker } else { Value::make_int(rng.below(3) as i64) });
+                    }
+                }
+                k
+            };
+            if rng.chance(1, 2) {
+                let mut l: Vec<Value> = (0..1 + rng.below(3)).map(|_| Value::make_dict(kid(rng))).collect();
+                l.push(Value::make_int(3));
+                d.insert("children".into(), Value::make_list(l));
+            } else {
+                let mut text = String::new();
+                for _ in 0..1 + rng.below(5) {
+                    let line = match rng.below(9) {
+                        0 => "// a comment".to_string(),
+                        1 => "   ".to_string(),
+                        2 => "broken:{".to_string(),
+                        3 => format!("  {} point\r", pick(rng).replace(['-', ':'], "X")),
+                        4 => format!("{}:{} s:\"x y\"", pick(rng).replace(['-', ':'], "X"), rng.below(4)),
+                        5 => format!("{}, q:2kW\t", pick(rng).replace(['-', ':'], "X")),
+                        6 => "".to_string(),
+                        _ => format!("{} {} equip", pick(rng).replace(['-', ':'], "X"), pick(rng).replace(['-', ':'], "X")),
+                    };
+                    text.push_str(&line);
+                    text.push('\n');
+                }
+                d.insert("children".into(), Value::make_str(&text));
+            }
+            if rng.chance(2, 3) {
+                d.insert("childrenFlatten".into(), sym_list(&[pick(rng), pick(rng)]));
+            }
+        } else if rng.chance(1, 30) {
+            d.insert("children".into(), Value::make_int(1));
+        }
+    }
+    let mk = |name: &str, is: &[&str], extra: Vec<(&str, Value)>| -> Dict {
+        let mut r = Dict::new();
+        r.insert("def".into(), Value::make_symbol(name));
+        r.insert("is".into(), Value::make_list(is.iter().map(|s| Value::make_symbol(s)).collect()));
+        for (k, v) in extra {
+            r.insert(k.into(), v);
+        }
+        r
+    };
+    dicts.push(mk("marker", &[], vec![]));
+    dicts.push(mk("val", &[], vec![]));
+    dicts.push(mk("entity", &["marker"], vec![]));
+    dicts.push(mk("association", &[], vec![]));
+    dicts.push(mk("is", &["association"], vec![]));
+    dicts.push(mk("tagOn", &["association"], vec![]));
+    dicts.push(mk("tags", &["association"], vec![("computedFromReciprocal", Value::Marker), ("reciprocalOf", Value::make_symbol("tagOn"))]));
+    dicts.push(mk("rel1", &["association", "undef1"], vec![]));
+    dicts.push(mk("rel1s", &["undef2", "association"], vec![("computedFromReciprocal", Value::make_str("yes")), ("reciprocalOf", Value::make_symbol("rel1"))]));
+    dicts.push(mk("relBad", &["association"], vec![("computedFromReciprocal", Value::Marker), ("reciprocalOf", Value::make_symbol("undef3"))]));
+    dicts.push(mk("relNone", &["association"], vec![("computedFromReciprocal", Value::Marker)]));
+    dicts.push(mk("relSub", &["rel1"], vec![]));
+    dicts.push(mk("notAssoc", &["marker"], vec![("reciprocalOf", Value::make_symbol("tagOn"))]));
+    Grid::make_from_dicts(dicts)
+}
+
+/// the association names asked about in a rich grid
+pub const RICH_ASSOCS: [&str; 12] = ["is", "tagOn", "tags", "rel1", "rel1s", "relBad", "relNone", "relSub", "notAssoc", "association", "undef0", "marker"];
 
 /// a taxonomy whose `is` chains are long: k0 <- k1 <- ... <- k(n-1), every 7th def with a second supertype on a
 /// side branch that rejoins the chain lower down, one undefined supertype, one conjunct at the bottom
@@ -135,11 +328,13 @@ pub fn run(vec: &J, out: &mut Out) -> Result<(), String> {
                 rows.push((d, is));
             }
             let grid = grid_of(&rows, true);
-            out.emit(load_event(&grid));
+            out.emit(load_event_rich(&grid));
             let ns = leak(grid);
             let syms: Vec<String> = ["a", "b", "c", "d", "a-b", "a-c", "k:x", "choice", "u"].iter().map(|s| s.to_string()).collect();
+            out.emit(index_event(ns));
             for s in &syms {
                 out.emit(query_event(ns, s, &syms));
+                out.emit(assoc_event(ns, s, &syms[..3]));
             }
             // records over the tags a b c d (absent / Marker / non-marker) and an undefined tag
             let opts = [None, Some(Value::Marker), Some(Value::make_int(1))];
@@ -178,7 +373,8 @@ pub fn real_defs_grid() -> Result<Grid, String> {
 pub fn rec(out: &mut Out, seed: u64, n_random: usize) -> Result<(), String> {
     let mut rng = Rng::new(seed);
     let grid = real_defs_grid()?;
-    out.emit(load_event(&grid));
+    let load = load_event_rich(&grid);
+    out.emit(load.clone());
     let ns = leak(grid.clone());
     let mut all: Vec<String> = grid.rows.iter().filter_map(|r| r.get_symbol("def").map(|s| s.value.clone())).collect();
     all.sort();
@@ -186,9 +382,26 @@ pub fn rec(out: &mut Out, seed: u64, n_random: usize) -> Result<(), String> {
     let mut asked = all.clone();
     asked.push("notADef".into());
     asked.push("site-foo".into());
-    for s in &asked {
-        out.emit(query_event(ns, s, &asked));
+    // every def that lists `association` directly, one that only inherits it, and three that are no associations
+    let mut assocs: Vec<String> = grid
+        .rows
+        .iter()
+        .filter(|r| r.get_list("is").is_some_and(|l| l.contains(&Value::make_symbol("association"))))
+        .filter_map(|r| r.get_symbol("def").map(|s| s.value.clone()))
+        .collect();
+    for extra in ["association", "site", "notADef", "relationship", "containedBy"] {
+        assocs.push(extra.into());
     }
+    out.emit(index_event(ns));
+    // the trace is cut in front of load events: the same load in front of each slice lets TLC judge the slices in parallel
+    for (i, s) in asked.iter().enumerate() {
+        if i > 0 && i % 60 == 0 {
+            out.emit(load.clone());
+        }
+        out.emit(query_event(ns, s, &asked));
+        out.emit(assoc_event(ns, s, &assocs));
+    }
+    out.emit(load.clone());
     let _ = &*DEFAULT_NS;
     // records: rows of the points corpus + synthetic marker sets
     let ask: Vec<String> = ["site", "equip", "point", "ahu", "entity", "marker", "hot-water", "air", "elec-meter", "meter", "vav", "airHandlingEquip", "notADef", "lib:ph"].iter().map(|s| s.to_string()).collect();
@@ -203,8 +416,24 @@ pub fn rec(out: &mut Out, seed: u64, n_random: usize) -> Result<(), String> {
                         }
                     }
                     out.emit(reflect_event(ns, &slim, &ask));
+                    out.emit(protos_event(ns, &slim));
                 }
             }
+        }
+    }
+    // records over the defs that have children, with the tags their childrenFlatten looks for
+    let with_children: Vec<String> = grid.rows.iter().filter(|r| r.has("children")).filter_map(|r| r.get_symbol("def").map(|s| s.value.clone())).collect();
+    let flatten_hits = ["steam", "leaving", "entering", "hot", "water", "air", "elec", "naturalGas", "discharge", "return", "chilled", "makeup", "ac", "dc"];
+    for c in with_children.iter() {
+        for round in 0..6 {
+            let mut rec = Dict::new();
+            rec.insert(c.clone(), Value::Marker);
+            rec.insert("equip".into(), Value::Marker);
+            for _ in 0..round {
+                let k = flatten_hits[rng.below(flatten_hits.len())];
+                rec.insert(k.into(), match rng.below(4) { 0 => Value::Null, 1 => Value::make_str("v"), _ => Value::Marker });
+            }
+            out.emit(protos_event(ns, &rec));
         }
     }
     let markers: Vec<&String> = all.iter().filter(|s| !s.contains('-') && !s.contains(':')).collect();
@@ -213,6 +442,9 @@ pub fn rec(out: &mut Out, seed: u64, n_random: usize) -> Result<(), String> {
         for _ in 0..(1 + rng.below(6)) {
             let k = markers[rng.below(markers.len())].clone();
             rec.insert(k, if rng.chance(4, 5) { Value::Marker } else { Value::make_str("x") });
+        }
+        if rng.chance(1, 2) {
+            rec.insert(with_children[rng.below(with_children.len())].clone(), Value::Marker);
         }
         // parts of a random conjunct
         let conj: Vec<&String> = all.iter().filter(|s| s.contains('-')).collect();
@@ -223,12 +455,13 @@ pub fn rec(out: &mut Out, seed: u64, n_random: usize) -> Result<(), String> {
             }
         }
         out.emit(reflect_event(ns, &rec, &ask));
+        out.emit(protos_event(ns, &rec));
     }
     // deep taxonomies (chains of 40 and 90 links), asked leaves first on one cold namespace and roots first on another
     for (n, leaves_first) in [(40usize, true), (90, true), (90, false)] {
         let rows = deep_rows(n);
         let grid = grid_of(&rows, false);
-        out.emit(load_event(&grid));
+        out.emit(load_event_rich(&grid));
         let ns = leak(grid);
         let mut asked: Vec<String> = rows.iter().map(|r| r.0.clone()).collect();
         asked.push("undef0".into());
@@ -273,10 +506,15 @@ pub fn rec(out: &mut Out, seed: u64, n_random: usize) -> Result<(), String> {
             names.push(name);
         }
         rows.push(("choice".into(), vec![]));
-        let grid = grid_of(&rows, true);
-        out.emit(load_event(&grid));
+        let grid = grid_rich(&rows, &mut rng);
+        out.emit(load_event_rich(&grid));
         let ns = leak(grid);
+        out.emit(index_event(ns));
+        let assocs: Vec<String> = RICH_ASSOCS.iter().map(|s| s.to_string()).collect();
         let mut asked: Vec<String> = names.clone();
+        for extra in ["entity", "marker", "val", "association", "tags", "rel1s"] {
+            asked.push(extra.into());
+        }
         asked.push("choice".into());
         asked.push("undef0".into());
         asked.push("undef9".into());
@@ -284,6 +522,7 @@ pub fn rec(out: &mut Out, seed: u64, n_random: usize) -> Result<(), String> {
         for s in asked.iter() {
             let window: Vec<String> = asked.iter().filter(|_| true).cloned().collect();
             out.emit(query_event(ns, s, &window));
+            out.emit(assoc_event(ns, s, &assocs));
         }
         for _ in 0..40 {
             let mut rec = Dict::new();
@@ -294,11 +533,12 @@ pub fn rec(out: &mut Out, seed: u64, n_random: usize) -> Result<(), String> {
                         rec.insert(p.to_string(), Value::Marker);
                     }
                 } else if !k.contains(':') {
-                    rec.insert(k, if rng.chance(3, 4) { Value::Marker } else { Value::make_int(2) });
+                    rec.insert(k, match rng.below(8) { 0 => Value::make_int(2), 1 => Value::Null, _ => Value::Marker });
                 }
             }
             let ask: Vec<String> = (0..12).map(|_| asked[rng.below(asked.len())].clone()).collect();
             out.emit(reflect_event(ns, &rec, &ask));
+            out.emit(protos_event(ns, &rec));
         }
     }
     Ok(())
